@@ -55,7 +55,7 @@ Ltac norm_lor :=
 
 Ltac Zify.zify_post_hook ::= Z.to_euclidean_division_equations.
 
-Ltac bytes_eq := repeat (f_equal; try lia); try reflexivity; try lia.
+Ltac bytes_eq := try congruence; repeat (f_equal; try lia; try congruence); try reflexivity; try lia; try congruence.
 Ltac tie_leaf :=
   first [ reflexivity | discriminate | lia
         | (cbn [app]; rewrite <- ?app_assoc; cbn [app]; bytes_eq) ].
@@ -145,3 +145,36 @@ Ltac decode_first_byte b Hb :=
            | |- context [if ?c then _ else _] =>
                lazymatch type of c with bool => idtac end; destruct c; cbv beta iota zeta
            end; reflexivity ].
+
+(* ---------- pipelines in the option monad ----------
+   Functions that only chain partial operations (pack, Script.to_bytes, a CompactSize prefix, concatenation): after
+   the callee ties have been rewritten (database `tie`) both sides are matches over the same atomic option-valued
+   terms; destruct them innermost first, then compare the concatenations up to associativity. *)
+Ltac pipe_step :=
+  cbv beta iota zeta;
+  match goal with
+  | |- context [match ?o with Some _ => _ | None => _ end] =>
+      lazymatch o with
+      | context [match _ with _ => _ end] => fail
+      | context [if _ then _ else _] => fail
+      | _ => let E := fresh "E" in destruct o eqn:E
+      end
+  | |- context [if ?b then _ else _] =>
+      lazymatch type of b with bool => idtac end;
+      lazymatch b with
+      | context [match _ with _ => _ end] => fail
+      | _ => let E := fresh "E" in destruct b eqn:E
+      end
+  end.
+Ltac reuse_eqns :=
+  repeat match goal with
+         | H : ?o = Some _ |- context [?o] => rewrite H
+         | H : ?o = None |- context [?o] => rewrite H
+         | H : ?o = true |- context [?o] => rewrite H
+         | H : ?o = false |- context [?o] => rewrite H
+         end.
+Ltac tie_pipe :=
+  repeat (autorewrite with tie; unfold prepend_compact_size; unfold of_option, option_map; reuse_eqns; pipe_step);
+  autorewrite with tie; unfold prepend_compact_size; unfold of_option, option_map; reuse_eqns; cbv beta iota zeta;
+  try reflexivity; try discriminate; try congruence;
+  rewrite <- ?app_assoc; cbn [app]; rewrite <- ?app_assoc; try reflexivity; bytes_eq.
